@@ -6,46 +6,56 @@ import GolibsVerif.Model.C10IR
 
 namespace GolibsVerif.C10.Lock
 
-/-! ## The checker is monotone in its continuation -/
+/-! ## The checker is monotone in its continuations -/
 
 mutual
-theorem anaS_mono : ∀ (x : Stmt) (k1 k2 : St → Bool) (s : St),
-    (∀ s', k1 s' = true → k2 s' = true) → anaS x k1 s = true → anaS x k2 s = true
-  | .lock, k1, k2, s, hk, h => by
+theorem anaS_mono : ∀ (x : Stmt) (kr1 kr2 k1 k2 : St → Bool) (s : St),
+    (∀ s', kr1 s' = true → kr2 s' = true) → (∀ s', k1 s' = true → k2 s' = true) →
+    anaS x kr1 k1 s = true → anaS x kr2 k2 s = true
+  | .lock, kr1, kr2, k1, k2, s, hr, hk, h => by
     simp only [anaS] at h ⊢; split <;> simp_all
-  | .unlock, k1, k2, s, hk, h => by
+  | .unlock, kr1, kr2, k1, k2, s, hr, hk, h => by
     simp only [anaS] at h ⊢; split <;> simp_all
-  | .acc a l, k1, k2, s, hk, h => by
+  | .acc a l, kr1, kr2, k1, k2, s, hr, hk, h => by
     simp only [anaS] at h ⊢; split <;> simp_all
-  | .publish, k1, k2, s, hk, h => by
+  | .publish, kr1, kr2, k1, k2, s, hr, hk, h => by
     simp only [anaS] at h ⊢; split <;> simp_all
-  | .callOnDelete, k1, k2, s, hk, h => by
+  | .callOnDelete, kr1, kr2, k1, k2, s, hr, hk, h => by
     simp only [anaS] at h ⊢; split <;> simp_all
-  | .ret, k1, k2, s, hk, h => by
-    simp only [anaS] at h ⊢; exact h
-  | .ite c t e, k1, k2, s, hk, h => by
+  | .ret, kr1, kr2, k1, k2, s, hr, hk, h => by
+    simp only [anaS] at h ⊢; exact hr s h
+  | .ite c t e, kr1, kr2, k1, k2, s, hr, hk, h => by
     simp only [anaS] at h ⊢
-    refine anaB_mono c _ _ s ?_ h
+    refine anaB_mono c _ _ _ _ s hr ?_ h
     intro s' hs'
     simp only [Bool.and_eq_true] at hs' ⊢
-    exact ⟨anaB_mono t k1 k2 s' hk hs'.1, anaB_mono e k1 k2 s' hk hs'.2⟩
-  | .loop c b, k1, k2, s, hk, h => by
+    exact ⟨anaB_mono t kr1 kr2 k1 k2 s' hr hk hs'.1, anaB_mono e kr1 kr2 k1 k2 s' hr hk hs'.2⟩
+  | .loop c b, kr1, kr2, k1, k2, s, hr, hk, h => by
     simp only [anaS] at h ⊢
-    refine anaB_mono c _ _ s ?_ h
+    refine anaB_mono c _ _ _ _ s hr ?_ h
     intro s' hs'
     simp only [Bool.and_eq_true] at hs' ⊢
-    exact ⟨hs'.1, hk s' hs'.2⟩
-theorem anaB_mono : ∀ (b : List Stmt) (k1 k2 : St → Bool) (s : St),
-    (∀ s', k1 s' = true → k2 s' = true) → anaB b k1 s = true → anaB b k2 s = true
-  | [], k1, k2, s, hk, h => by
+    exact ⟨anaB_mono b kr1 kr2 _ _ s' hr (fun _ h => h) hs'.1, hk s' hs'.2⟩
+  | .call _ b, kr1, kr2, k1, k2, s, hr, hk, h => by
+    simp only [anaS] at h ⊢
+    exact anaB_mono b k1 k2 k1 k2 s hk hk h
+theorem anaB_mono : ∀ (b : List Stmt) (kr1 kr2 k1 k2 : St → Bool) (s : St),
+    (∀ s', kr1 s' = true → kr2 s' = true) → (∀ s', k1 s' = true → k2 s' = true) →
+    anaB b kr1 k1 s = true → anaB b kr2 k2 s = true
+  | [], kr1, kr2, k1, k2, s, hr, hk, h => by
     simp only [anaB] at h ⊢; exact hk s h
-  | x :: r, k1, k2, s, hk, h => by
+  | x :: r, kr1, kr2, k1, k2, s, hr, hk, h => by
     simp only [anaB] at h ⊢
-    exact anaS_mono x _ _ s (fun s' hs' => anaB_mono r k1 k2 s' hk hs') h
+    exact anaS_mono x _ _ _ _ s hr (fun s' hs' => anaB_mono r kr1 kr2 k1 k2 s' hr hk hs') h
 end
 
-theorem anaB_append (a b : List Stmt) (k : St → Bool) (s : St) :
-    anaB (a ++ b) k s = anaB a (fun s' => anaB b k s') s := by
+/-- monotonicity in the fall-through continuation only -/
+theorem anaB_mono_k (b : List Stmt) (kr k1 k2 : St → Bool) (s : St)
+    (hk : ∀ s', k1 s' = true → k2 s' = true) (h : anaB b kr k1 s = true) : anaB b kr k2 s = true :=
+  anaB_mono b kr kr k1 k2 s (fun _ h => h) hk h
+
+theorem anaB_append (a b : List Stmt) (kr k : St → Bool) (s : St) :
+    anaB (a ++ b) kr k s = anaB a kr (fun s' => anaB b kr k s') s := by
   induction a generalizing s k with
   | nil => simp [anaB]
   | cons x r ih =>
@@ -66,78 +76,82 @@ theorem walk_append (s : St) (p q : List Ev) :
     | none => simp
     | some s1 => simp [ih]
 
-/-- Every path through `b`, from a state the checker accepts with continuation `k`: all events
-are permitted; a returning path ends without the lock; a path that falls off the end of `b`
-ends in a state satisfying `k`. -/
+/-- Every path through `b`, from a state the checker accepts with continuations `kr`, `k`: all
+events are permitted; a path that ends in a `return` ends in a state satisfying `kr`; a path that
+falls off the end of `b` ends in a state satisfying `k`. -/
 theorem exec_sound {b : List Stmt} {p : List Ev} {o : Bool} (hx : Exec b p o) :
-    ∀ (k : St → Bool) (s : St), anaB b k s = true →
-      ∃ s', walk s p = some s' ∧ (if o then s'.held = false else k s' = true) := by
+    ∀ (kr k : St → Bool) (s : St), anaB b kr k s = true →
+      ∃ s', walk s p = some s' ∧ (if o then kr s' = true else k s' = true) := by
   induction hx with
   | nil =>
-    intro k s h
+    intro kr k s h
     exact ⟨s, rfl, by simpa [anaB] using h⟩
   | lock _ ih | unlock _ ih | acc _ ih | publish _ ih | callOnDelete _ ih =>
-    intro k s h
+    intro kr k s h
     simp only [anaB, anaS] at h
     split at h
     · rename_i s1 hs1
-      obtain ⟨s', hw, hk⟩ := ih k s1 h
+      obtain ⟨s', hw, hk⟩ := ih kr k s1 h
       exact ⟨s', by simp [walk, hs1, hw], hk⟩
     · cases h
   | ret =>
-    intro k s h
+    intro kr k s h
     simp only [anaB, anaS] at h
-    split at h
-    · rename_i s1 hs1
-      have : s.held = false ∧ s1 = s := by
-        simp only [St.step] at hs1
-        split at hs1 <;> simp_all
-      exact ⟨s, by simp [walk, hs1, this.2], by simp [this.1]⟩
-    · cases h
+    exact ⟨s, rfl, by simpa using h⟩
   | iteThen _ ih =>
-    intro k s h
-    apply ih k s
+    intro kr k s h
+    apply ih kr k s
     simp only [anaB, anaS] at h
     rw [anaB_append]
-    refine anaB_mono _ _ _ s ?_ h
+    refine anaB_mono_k _ _ _ _ s ?_ h
     intro s1 hs1
     simp only [Bool.and_eq_true] at hs1
     rw [anaB_append]
     exact hs1.1
   | iteElse _ ih =>
-    intro k s h
-    apply ih k s
+    intro kr k s h
+    apply ih kr k s
     simp only [anaB, anaS] at h
     rw [anaB_append]
-    refine anaB_mono _ _ _ s ?_ h
+    refine anaB_mono_k _ _ _ _ s ?_ h
     intro s1 hs1
     simp only [Bool.and_eq_true] at hs1
     rw [anaB_append]
     exact hs1.2
   | loopExit _ ih =>
-    intro k s h
-    apply ih k s
+    intro kr k s h
+    apply ih kr k s
     simp only [anaB, anaS] at h
     rw [anaB_append]
-    refine anaB_mono _ _ _ s ?_ h
+    refine anaB_mono_k _ _ _ _ s ?_ h
     intro s1 hs1
     simp only [Bool.and_eq_true] at hs1
     exact hs1.2
   | loopIter _ ih =>
-    intro k s h
-    apply ih k s
+    intro kr k s h
+    apply ih kr k s
     have h0 := h
     simp only [anaB, anaS] at h
     rw [anaB_append]
-    refine anaB_mono _ _ _ s ?_ h
+    refine anaB_mono_k _ _ _ _ s ?_ h
     intro s1 hs1
     simp only [Bool.and_eq_true] at hs1
     rw [anaB_append]
-    refine anaB_mono _ _ _ s1 ?_ hs1.1
+    refine anaB_mono_k _ _ _ _ s1 ?_ hs1.1
     intro s2 hs2
     have : s2 = s := by simpa using hs2
     subst this
     exact h0
+  | @call n b r p q o' o _ _ ih1 ih2 =>
+    -- the callee's path, whether it returned or fell off its end, ends in a state from which
+    -- the rest of the caller is accepted
+    intro kr k s h
+    simp only [anaB, anaS] at h
+    obtain ⟨s1, hw1, hk1⟩ := ih1 _ _ s h
+    have hk1' : anaB r kr k s1 = true := by
+      cases o' <;> simpa using hk1
+    obtain ⟨s', hw2, hk2⟩ := ih2 kr k s1 hk1'
+    exact ⟨s', by simp [walk_append, hw1, hw2], hk2⟩
 
 /-! ## Thread level -/
 
@@ -190,10 +204,13 @@ theorem walkH_prefix {h : Bool} {p q : List Ev} (hs : (walkH h (p ++ q)).isSome 
 
 theorem analyse_path {m : Method} (hm : analyse m = true) {p : List Ev} (hp : Path m.body p) :
     WellLocked p := by
-  obtain ⟨o, hx⟩ := hp
-  obtain ⟨s', hw, hk⟩ := exec_sound hx _ init hm
-  refine ⟨s', hw, ?_⟩
-  cases o <;> simpa using hk
+  rcases hp with hx | ⟨p', hx, rfl⟩
+  · obtain ⟨s', hw, hk⟩ := exec_sound hx _ _ init hm
+    exact ⟨s', hw, by simpa using hk⟩
+  · obtain ⟨s', hw, hk⟩ := exec_sound hx _ _ init hm
+    have hh : s'.held = false := by simpa using hk
+    refine ⟨s', ?_, hh⟩
+    simp [walk_append, hw, walk, St.step, hh]
 
 /-- A thread that only runs analysed methods walks (at thread level) from "not held" back to
 "not held" over any whole number of calls. -/
